@@ -1,11 +1,12 @@
 """Contracts for someip.sd (session storage first; the stateful classes follow)."""
 import someip.sd as SD
+from contracts.common import gen_addr
 
 ID_MAX = 0xFFFF
 
-K_INCOMING = ("tuple", "obj:addr", "bool")
+K_INCOMING = "any"  # (sockaddr, multicast)
 V_SESSION = ("tuple", "bool", "int")
-K_OUTGOING = ("opt", "obj:addr")
+K_OUTGOING = "any"  # sockaddr or None
 
 
 # ---------------------------------------------------------------------------- _SessionStorage
@@ -84,7 +85,7 @@ def gen_storage(vc, name, with_inv=True):
 
 def ob_check_received_refines(vc):
     a, b = gen_storage(vc, "st")
-    sender = vc.opaque("sender", "addr")
+    sender = gen_addr(vc, "sender")
     multicast = vc.bool("multicast")
     flag = vc.bool("flag")
     sid = vc.int("session_id", 0, 0xFFFF)
@@ -107,7 +108,7 @@ def ob_assign_outgoing_refines(vc):
     if remote:
         r = None
     else:
-        r = vc.opaque("remote", "addr")
+        r = gen_addr(vc, "remote")
     o1 = vc.outcome(vc.body(SD._SessionStorage.assign_outgoing), a, r)
     vc.lock_discipline("st.outgoing", "assign_outgoing.outgoing_only_under_lock")
     o2 = vc.outcome(assign_outgoing, b, r)
